@@ -107,32 +107,57 @@ type Term struct {
 	ID   int
 }
 
+type tkey struct {
+	op         Op
+	k          Kind
+	w          int32
+	a0, a1, a2 int32
+	lo         uint64
+	big        string
+	name       string
+}
+
 type Store struct {
 	Tables map[string][]*big.Int // constant tables referenced by OpSelect
 	TableW map[string]int
-	tab  map[string]*Term
-	next int
-	T, F *Term
+	tab    map[tkey]*Term
+	next   int
+	T, F   *Term
+	small  map[[2]int64]*Term
 }
 
 func NewStore() *Store {
-	s := &Store{tab: map[string]*Term{}, Tables: map[string][]*big.Int{}, TableW: map[string]int{}}
+	s := &Store{tab: map[tkey]*Term{}, Tables: map[string][]*big.Int{}, TableW: map[string]int{}, small: map[[2]int64]*Term{}}
 	s.T = s.mk(&Term{Op: OpConst, Sort: Bool, Val: big.NewInt(1)})
 	s.F = s.mk(&Term{Op: OpConst, Sort: Bool, Val: big.NewInt(0)})
 	return s
 }
 
+// Size returns the number of distinct terms created so far.
+func (s *Store) Size() int { return s.next }
+
 func (s *Store) mk(t *Term) *Term {
-	var sb strings.Builder
-	fmt.Fprintf(&sb, "%d|%d.%d|", t.Op, t.Sort.K, t.Sort.W)
-	for _, a := range t.Args {
-		fmt.Fprintf(&sb, "%d,", a.ID)
+	k := tkey{op: t.Op, k: t.Sort.K, w: int32(t.Sort.W), name: t.Name}
+	switch len(t.Args) {
+	case 3:
+		k.a2 = int32(t.Args[2].ID)
+		fallthrough
+	case 2:
+		k.a1 = int32(t.Args[1].ID)
+		fallthrough
+	case 1:
+		k.a0 = int32(t.Args[0].ID)
+	case 0:
+	default:
+		panic("smt: more than three arguments")
 	}
 	if t.Val != nil {
-		sb.WriteString("|" + t.Val.Text(16))
+		if t.Val.IsUint64() {
+			k.lo = t.Val.Uint64()
+		} else {
+			k.big = t.Val.Text(16)
+		}
 	}
-	sb.WriteString("|" + t.Name)
-	k := sb.String()
 	if u, ok := s.tab[k]; ok {
 		return u
 	}
@@ -152,6 +177,9 @@ func mask(w int) *big.Int {
 }
 
 func norm(v *big.Int, w int) *big.Int {
+	if v.Sign() >= 0 && v.BitLen() <= w {
+		return v
+	}
 	r := new(big.Int).And(v, mask(w))
 	return r
 }
@@ -175,7 +203,18 @@ func (s *Store) BVConst(v *big.Int, w int) *Term {
 	return s.mk(&Term{Op: OpConst, Sort: BV(w), Val: norm(v, w)})
 }
 
-func (s *Store) BVConstI(v int64, w int) *Term { return s.BVConst(big.NewInt(v), w) }
+func (s *Store) BVConstI(v int64, w int) *Term {
+	if v >= -64 && v < 1024 {
+		k := [2]int64{v, int64(w)}
+		if t, ok := s.small[k]; ok {
+			return t
+		}
+		t := s.BVConst(big.NewInt(v), w)
+		s.small[k] = t
+		return t
+	}
+	return s.BVConst(big.NewInt(v), w)
+}
 func (s *Store) BVConstU(v uint64, w int) *Term {
 	return s.BVConst(new(big.Int).SetUint64(v), w)
 }
